@@ -91,6 +91,9 @@ def run(ctx: Ctx):
         pool += pl
         ctx.count("programs_generated", st["generated"])
     entries = [(src, args, "gen") for ast, src, args, r in pool]
+    from . import c01
+    for ast in c01.loop_tail_shapes(rng, 6 if quick else 60, yields=True, family="append-yield") + c01.loop_tail_shapes(rng, 6 if quick else 60, yields=True):
+        entries.append((gen.prog_src(ast), list(ast.args) + [rng.choice(["-O2", "-O3", "-O3"]), "-findirect-start-ptr"], "shapes"))
     bounds = [0x00, 0x01, 0x09, 0x1f, 0x20, 0x41, 0x5a, 0x61, 0x7a, 0x7e, 0x7f, 0x80, 0x81, 0xbf, 0xc0, 0xfd, 0xfe, 0xff]
     for i in range(10 if quick else 80):
         parts = []
